@@ -102,7 +102,7 @@ func H_C18_Process() {
 	}
 	// predicate: absent / true / false / error; records the cloudevent it is shown
 	var seen *Event
-	predKind := symLen(0, 3)
+	predKind := symLen(0, 4)
 	predErr := &cErr{"pred"}
 	if predKind > 0 {
 		f.Predicate = func(ctx context.Context, ce interface{}) (bool, error) {
@@ -114,6 +114,8 @@ func H_C18_Process() {
 				return true, nil
 			case 2:
 				return false, nil
+			case 4:
+				return true, predErr
 			}
 			return false, predErr
 		}
@@ -179,6 +181,9 @@ func H_C18_Process() {
 		verifAssert(out == nil, "C18.sign-failure-forwards-nothing")
 		verifReach("C18.signfail")
 		return
+	}
+	if predKind >= 3 {
+		verifAssert(err != nil && out == nil, "C18.predicate-error-is-error")
 	}
 	if err != nil {
 		// remaining error sources: encoder failure, id generation failure, predicate error
